@@ -1234,6 +1234,26 @@ def all_gen_interleavings():
 _GI = all_gen_interleavings()
 
 
+_FAMILIES = [
+    ("Salsa20", "Chacha"),
+    ("SHA1", "SHA2", "MD4", "MD5", "HMAC", "Blake", "blake_singleton"),
+    ("Blake", "Blake2", "blake_singleton", "blake2_singleton", "SHA2"),
+    ("Keccak", "keccak_singleton", "SHA3"),
+    ("Skein", "UBI", "Threefish"),
+    ("ECB", "CBC", "CTR", "AES", "DES", "TDEA", "Serpent"),
+    ("DES", "TDEA"),
+    ("TLSH", "tlsh_singleton", "Nilsimsa"),
+    ("MD6", "Keccak", "SHA3"),
+]
+FAMILY = {}
+for _f in _FAMILIES:
+    for _k in _f:
+        FAMILY.setdefault(_k, [])
+        for _j in _f:
+            if _j != _k and _j not in FAMILY[_k]:
+                FAMILY[_k].append(_j)
+
+
 def _other(rng, cur, choices):
     c = [x for x in choices if x != cur]
     return rng.choice(c) if c else cur
@@ -1505,10 +1525,16 @@ class C10(Machine):
             sib = Ctx(rng, pb, kind, so, sinfo)
             roles[str(so)] = "sibling"
             ctxs.append(sib)
-        # unrelated object
+        # another object of a different kind: two times out of three a *relative* of the main kind (a subclass
+        # or base class, a class built on the same helpers, the collaborator class), otherwise any kind
         oth = None
-        if rng.random() < 0.25:
-            ok = rng.choices(_KNAMES, _KW)[0]
+        if rng.random() < 0.35:
+            fam = [k_ for k_ in FAMILY.get(kind, ()) if k_ != kind]
+            if fam and rng.random() < 0.66:
+                ok = rng.choice(fam)
+                pb.plan["meta"]["other_is_relative"] = True
+            else:
+                ok = rng.choices(_KNAMES, _KW)[0]
             oo, oinfo = KINDS[ok][1](rng, pb, False)
             oth = Ctx(rng, pb, ok, oo, oinfo)
             roles[str(oo)] = "other"
@@ -1798,6 +1824,8 @@ class C10(Machine):
             probe("runs_with_object_shared_by_clients")
         if plan["meta"].get("twin"):
             probe("runs_with_sibling_" + str(plan["meta"]["twin"]))
+        if plan["meta"].get("other_is_relative"):
+            probe("runs_with_an_object_of_a_related_kind")
         extra = {"ngrams": sorted(ngrams), "faults": fcount,
                  "fps": sorted(set((plan["meta"].get("kind", "?") + ":" + f) for e in hist for f in e.get("fp", [])))}
         return vs, probes, "|".join(trace), nontrivial, extra
